@@ -1257,7 +1257,7 @@ def annotation_oracle(env, items, info, m):
 def c03(tier):
     def body(s):
         s.functions.update(n for n in s.ctx.bodies if re.search(r'field::<impl.*write_xml|write_complex_type|write_type_alias|Field.*try_from_node|switch_to_target_namespace|import_extension', n))
-        fams = [F.s_seq(tier)[1], F.s_xns(tier), F.s_ref_anon_fwd(tier), F.x_cross(tier), F.x_chain(tier), F.s_xref(tier), F.x_cross3(tier), F.q_default(tier)]
+        fams = [F.s_seq(tier)[1], F.s_xns(tier), F.s_ref_anon_fwd(tier), F.x_cross(tier), F.x_chain(tier), F.s_xref(tier), F.s_xref(tier, pfx='xmlext'), F.x_cross3(tier), F.q_default(tier)]
         for sc, info in fams:
             if not hasattr(info, 'bases'):
                 info.bases = {}
@@ -1468,7 +1468,11 @@ def soap_helper_paths(ctx, wrapper=False):
                     nth = polls.get('sends', 1)
                     polls['send'] = 0         # a further send may be pending once, too
                     return Adt('Poll', 0, [OK(Opaque('Response')) if mm.branch(B('send_ok' if nth <= 1 else 'send_ok_%d' % nth)) else ERR(Opaque('reqwest::Error', 'transport'))])
-                return Adt('Poll', 0, [OK(RString('<response-body/>')) if mm.branch(B('text_ok')) else ERR(Opaque('reqwest::Error', 'body'))])
+                if not mm.branch(B('text_ok')):
+                    return Adt('Poll', 0, [ERR(Opaque('reqwest::Error', 'body'))])
+                # the reply body is the envelope text or blank (an acknowledgement without payload)
+                polls['body'] = '  ' if mm.branch(B('body_blank')) else '<response-body/>'
+                return Adt('Poll', 0, [OK(RString(polls['body']))])
             if c.startswith('reqwest::Response::error_for_status_ref'):
                 mm.events.append(('status_check',))
                 return OK(args[0]) if mm.branch(z3.Not(B('status_4xx_5xx'))) else ERR(Opaque('reqwest::Error', 'status'))
@@ -1477,6 +1481,8 @@ def soap_helper_paths(ctx, wrapper=False):
                 return OK(deref(args[0])) if mm.branch(z3.Not(B('status_4xx_5xx'))) else ERR(Opaque('reqwest::Error', 'status'))
             if c.startswith('reqwest::Response::text'):
                 return Opaque('TextFuture')
+            if re.match(r'<[A-Z]\w{0,2} as (std::default::|core::default::)?Default>::default$', c):
+                return Opaque('DefaultValue')        # a value made up by the helper, not read from the reply
             if c.startswith('yaserde::de::from_str'):
                 mm.events.append(('deserialize', as_str(args[0])))
                 return OK(Opaque('ResponseEnvelope')) if mm.branch(B('de_ok')) else ERR(RString('de error'))
@@ -1553,7 +1559,7 @@ def helper_obligations(m, out, names):
         bad.append(('helper/status-checked', 'the reply status is never checked: %s' % kinds))
     if 'deserialize' in kinds:
         d = [e for e in ev if e[0] == 'deserialize'][0]
-        if d[1] != '<response-body/>':
+        if d[1] not in ('<response-body/>', '  ') or (d[1] == '  ') != bool(val.get('body_blank')):
             bad.append(('helper/deserializes-reply-body', 'from_str is given %r' % (d[1],)))
         if val.get('status_4xx_5xx') is True:
             bad.append(('helper/no-parse-of-failed-exchange', 'a 4xx/5xx reply is parsed: %s' % kinds))
